@@ -7,6 +7,7 @@
    are not compared (they are not needed for the transactions). *)
 From Coq Require Import ZArith List Bool Lia ZifyBool Permutation Sorted.
 From RecordUpdate Require Import RecordSet.
+From V Require Import Proofs.MedianProofs Proofs.TidyC18.
 From V Require Import Model.ZMap Model.Quorum Model.Voting Model.VotingRef Model.HgImpl Model.PeerSetSpec Model.Window
   Proofs.ZMapFacts Proofs.QuorumProofs Proofs.HgFrames Proofs.HgDagFrames Proofs.AdmissionProofs Proofs.InsertShape Proofs.Ancestry
   Proofs.HgBlockFrames Proofs.BlockInv Proofs.RoundOrder Proofs.OrderSort Proofs.OrderFrames Proofs.OrderProofs
@@ -618,3 +619,94 @@ Proof.
   - intros x r v1 v2.
     exact (gap_fame_agreement_universe all s1 s2 g g o1 o2 ops1 ops2 x r v1 v2 ID FF S1 S2 H1 H2 B1 B2 F1 F2 T).
 Qed.
+
+(** * the block timestamp: median over the timestamps of the famous witnesses of the round received *)
+Lemma nodup_fst_filterD {A B} (f : A * B -> bool) (l : list (A * B)) : NoDup (map fst l) -> NoDup (map fst (filter f l)).
+Proof.
+  induction l as [|a l IH]; intros N; [constructor|]. cbn [map] in N. inversion N as [|? ? Hn N']; subst.
+  cbn [filter]. destruct (f a); [|apply IH, N']. cbn [map]. constructor; [|apply IH, N'].
+  intros Hin. apply Hn. apply in_map_iff in Hin. destruct Hin as [b [E Hb]]. apply filter_In in Hb.
+  apply in_map_iff. exists b. split; [exact E|apply Hb].
+Qed.
+
+Section PairTs.
+  Variables (all : list event) (s1 s2 : Z) (g1 g2 : peerset) (o1 o2 : list Z) (ops1 ops2 : list hop).
+  Hypothesis ID : ids_determine all.
+  Hypothesis FF : fork_free all.
+  Hypothesis S1 : s1 <> -1.
+  Hypothesis S2 : s2 <> -1.
+  Hypothesis H1 : Forall (hop_ok all) ops1.
+  Hypothesis H2 : Forall (hop_ok all) ops2.
+  Hypothesis B1 : gap_runb (init_hg s1 g1 o1) ops1 = true.
+  Hypothesis B2 : gap_runb (init_hg s2 g2 o2) ops2 = true.
+  Let st1 := hrun (init_hg s1 g1 o1) ops1.
+  Let st2 := hrun (init_hg s2 g2 o2) ops2.
+  Hypothesis F1 : failed st1 = false.
+  Hypothesis F2 : failed st2 = false.
+  Hypothesis T : tables_agree st1 st2.
+
+  Lemma block_ts_agree d1 d2 : In d1 (delivered st1) -> In d2 (delivered st2) -> b_rr d1 = b_rr d2 -> b_ts d1 = b_ts d2.
+  Proof.
+    intros Hd1 Hd2 Er.
+    destruct (pair_common all s1 s2 g1 g2 o1 o2 ops1 ops2 ID S1 S2 H1 H2 B1 B2 F1 F2 T) as [P [G1 [G2 [R1 [R2 [SB _]]]]]].
+    fold st1 in G1, R1, SB. fold st2 in G2, R2, SB.
+    pose proof (pair_ncfD all s1 s2 g1 g2 o1 o2 ops1 ops2 ID FF S1 S2 H1 H2 B1 B2 F1 F2) as NF. fold st1 st2 in NF.
+    destruct (block_timestamp_is_median all s1 g1 o1 ops1 d1 ID H1 Hd1) as [M1 [_ St1]].
+    destruct (block_timestamp_is_median all s2 g2 o2 ops2 d2 ID H2 Hd2) as [M2 [_ St2]].
+    fold st1 in M1, St1. fold st2 in M2, St2. rewrite <- Er in M2, St2.
+    destruct (delivered_round_present all s1 g1 o1 ops1 d1 ID H1 F1 Hd1) as [ri1 Hr1].
+    destruct (delivered_round_present all s2 g2 o2 ops2 d2 ID H2 F2 Hd2) as [ri2 Hr2].
+    fold st1 in Hr1. fold st2 in Hr2. rewrite <- Er in Hr2.
+    set (R := b_rr d1) in *.
+    assert (HR0 : 0 <= R) by (apply (rinv_contig _ R1 R); congruence).
+    destruct (proj2 (hrun_rtop s1 g1 o1 ops1) F1) as [A1 _]. destruct (proj2 (hrun_rtop s2 g2 o2 ops2) F2) as [A2 _].
+    fold st1 in A1. fold st2 in A2.
+    assert (L1 : lcle st1 R) by (destruct (r_del_lc _ A1 d1 Hd1) as [l [Hl Hle]]; exists l; auto).
+    assert (L2 : lcle st2 R) by (destruct (r_del_lc _ A2 d2 Hd2) as [l [Hl Hle]]; exists l; split; [exact Hl|unfold R; lia]).
+    destruct (flag_below_lc st1 R R1 L1 HR0) as [ri1' [Hr1' D1]]. rewrite Hr1 in Hr1'. inversion Hr1'; subst ri1'.
+    destruct (flag_below_lc st2 R R2 L2 HR0) as [ri2' [Hr2' D2]]. rewrite Hr2 in Hr2'. inversion Hr2'; subst ri2'.
+    assert (FX : forall w, In w (famous_witnesses ri1) <-> In w (famous_witnesses ri2)).
+    { intros w. apply (famous_witnesses_agree_decided_gap all s1 s2 g1 g2 o1 o2 ops1 ops2 R ri1 ri2 w ID S1 S2 H1 H2 B1 B2 F1 F2 T NF Hr1 Hr2 D1 D2). }
+    assert (N1 : NoDup (famous_witnesses ri1)).
+    { unfold famous_witnesses. apply nodup_fst_filterD. pose proof (cd_tabu _ _ _ (gD_c _ _ G1) R) as N. unfold wl in N. rewrite Hr1 in N.
+      unfold wl_of in N. rewrite map_map in N. cbn [fst] in N. exact N. }
+    assert (N2 : NoDup (famous_witnesses ri2)).
+    { unfold famous_witnesses. apply nodup_fst_filterD. pose proof (cd_tabu _ _ _ (gD_c _ _ G2) R) as N. unfold wl in N. rewrite Hr2 in N.
+      unfold wl_of in N. rewrite map_map in N. cbn [fst] in N. exact N. }
+    unfold fws in M1, M2, St1, St2. rewrite Hr1 in M1, St1. rewrite Hr2 in M2, St2.
+    rewrite M1, M2.
+    assert (E : map (ets st1) (famous_witnesses ri1) = map (ets st2) (famous_witnesses ri1)).
+    { apply map_ext_in. intros w Hw. destruct (St1 w Hw) as [e1 [He1 Q1]]. destruct (St2 w (proj1 (FX w) Hw)) as [e2 [He2 Q2]].
+      rewrite Q1, Q2, (SB w e1 e2 He1 He2). reflexivity. }
+    rewrite E. apply median_perm_invariant. apply Permutation_map. apply NoDup_Permutation; assumption.
+  Qed.
+End PairTs.
+
+Section FinalTs.
+  Variables (all : list event) (g : peerset).
+  Hypothesis ID : ids_determine all.
+  Hypothesis SK : sigkeys_determine all.
+  Hypothesis FF : fork_free all.
+  Variables (s1 s2 : Z) (o1 o2 : list Z) (ops1 ops2 : list hop).
+  Hypothesis S1 : s1 <> -1.
+  Hypothesis S2 : s2 <> -1.
+  Hypothesis H1 : Forall (hop_ok all) ops1.
+  Hypothesis H2 : Forall (hop_ok all) ops2.
+  Hypothesis B1 : gap_runb (init_hg s1 g o1) ops1 = true.
+  Hypothesis B2 : gap_runb (init_hg s2 g o2) ops2 = true.
+  Let st1 := hrun (init_hg s1 g o1) ops1.
+  Let st2 := hrun (init_hg s2 g o2) ops2.
+  Hypothesis F1 : failed st1 = false.
+  Hypothesis F2 : failed st2 = false.
+
+  Theorem blocks_agree_gap_ts k d1 d2 :
+    nth_error (delivered st1) k = Some d1 -> nth_error (delivered st2) k = Some d2 ->
+    (b_index d1, b_rr d1, b_ts d1, b_txs d1, b_itxs d1) = (b_index d2, b_rr d2, b_ts d2, b_txs d2, b_itxs d2).
+  Proof.
+    intros Hk1 Hk2.
+    destruct (blocks_agree_gap all g ID SK FF s1 s2 o1 o2 ops1 ops2 S1 S2 H1 H2 B1 B2 F1 F2 k d1 d2 Hk1 Hk2) as [Ei [Er [Et Ex]]].
+    pose proof (gap_tables_agree all g ID SK FF s1 s2 o1 o2 ops1 ops2 S1 S2 H1 H2 B1 B2 F1 F2) as T.
+    pose proof (block_ts_agree all s1 s2 g g o1 o2 ops1 ops2 ID FF S1 S2 H1 H2 B1 B2 F1 F2 T d1 d2 (nth_error_In _ _ Hk1) (nth_error_In _ _ Hk2) Er) as Ets.
+    rewrite Ei, Er, Et, Ex, Ets. reflexivity.
+  Qed.
+End FinalTs.
